@@ -188,6 +188,41 @@ func checkC11(w *Worker) {
 		api := x.Choose(2, "input:api")
 		c11Body(x, book, n, api, "graph")
 	})
+	// acyclic books on 4 (thorough 5) recipes in topological numbering: every subset of the later
+	// recipes and the leaf as ingredient set, listed in ascending or descending order (deep-before-shallow
+	// and shallow-before-deep forks), against the two limits that matter: N = longest chain (must
+	// fail) and N = longest chain + 1 (must succeed), under every visiting order of every ranged map
+	ka := 4
+	anames := []string{"a0", "a1", "a2", "a3", "a4"}
+	w.Explore(fmt.Sprintf("acyclic-k%d-tight-limits", ka), ExploreOpts{ShardDepth: 4}, func(x *Exec) {
+		desc := x.Choose(2, "input:ingredient-order")
+		api := x.Choose(2, "input:api")
+		tight := x.Choose(2, "input:limit") // 0: N = longest chain, 1: N = longest chain + 1
+		book := absBook{}
+		for i := 0; i < ka; i++ {
+			cands := append(append([]string{}, anames[i+1:ka]...), "x")
+			mask := x.Choose(1<<uint(len(cands)), "input:ingredients")
+			r := absRecipe{Name: anames[i]}
+			for j, nm := range cands {
+				if mask&(1<<uint(j)) != 0 {
+					r.Ings = append(r.Ings, absIng{nm, 1})
+				}
+			}
+			if desc == 1 {
+				for l, rr := 0, len(r.Ings)-1; l < rr; l, rr = l+1, rr-1 {
+					r.Ings[l], r.Ings[rr] = r.Ings[rr], r.Ings[l]
+				}
+			}
+			book = append(book, r)
+		}
+		mh := maxHeight(refHeight(book))
+		n := mh + tight
+		if n < 1 {
+			x.Case("skip-empty", false)
+			return
+		}
+		c11Body(x, book, n, api, "acyclic")
+	})
 	// pure chains c1 -> c2 -> ... -> cL -> x, around every N
 	maxL, maxN := 6, 8
 	if w.Tier == "thorough" {
